@@ -54,6 +54,9 @@ FILE_ATTRS = [("default", 0, 0), ("dos-directory-bit", 0, 0x10), ("dos-directory
               ("unix-S_IFDIR-mode+dos-directory-bit", 3, 0o040755 << 16 | 0x10), ("unix-regular-mode", 3, 0o100644 << 16), ("unix-symlink-mode", 3, 0o120777 << 16),
               ("all-attribute-bits", 0, 0xFFFFFFFF), ("ntfs-directory-bit", 10, 0x10), ("dos-archive-bit", 0, 0x20)]
 DIR_ATTRS = [("default", 0, 0x10), ("no-attribute", 0, 0), ("unix-S_IFDIR-mode", 3, 0o040755 << 16 | 0x10)]
+# general-purpose flag bits of the record (also advisory for the guard: the central directory's sizes are definitive whatever bit 3 says)
+FILE_FLAGS = {"data-descriptor-flag": 0x08, "data-descriptor+compression-option-flags": 0x0E, "data-descriptor+masked-header-flags": 0x2008}
+FILE_ATTRS += [(lab, 0, 0) for lab in FILE_FLAGS]
 ATTR_BY_LABEL = {a[0]: a for a in FILE_ATTRS}
 
 
@@ -66,6 +69,8 @@ def attr_plan(amode):
 
 
 def attr_feature(label):
+    if label in FILE_FLAGS:
+        return "file-entry-carries-general-purpose-flags"
     a = ATTR_BY_LABEL[label][2]
     return "file-entry-carries-directory-attribute" if (a & 0x10 or (a >> 16) & 0o170000 == 0o040000) else "file-entry-carries-nondefault-attributes"
 
@@ -371,8 +376,10 @@ def _work_lattice(case):
                 sy, at = asys, aattr
             else:
                 sy, at = FILE_ATTRS[0][1:]
+            fl = FILE_FLAGS.get(alabel, 0) if (not d and (scope == "all" or f == fmax)) else 0
             if amode is not None:
                 zi.create_system, zi.external_attr = sy, at
+                zi.flag_bits = fl
                 if alabel != "default" and not d:
                     zp = zipfile.ZipInfo(zi.filename)       # control twin: the same entry with default attributes
                     zp.file_size, zp.compress_size = f, c
@@ -382,7 +389,7 @@ def _work_lattice(case):
             if case.get("real", True):
                 for j in range(k):
                     ents.append(F.Entry(f"m{i + j}/" if d else f"m{i + j}", cd_file_size=f, cd_compress_size=c,
-                                        ext_attr=None if amode is None else at, create_system=0 if amode is None else sy))
+                                        ext_attr=None if amode is None else at, create_system=0 if amode is None else sy, flags=fl))
             i += k
         stub = _outcome(lambda: zb.validate_zipfile(_Stub(infos), limits=limits, source="c11"))
         twin = None                                   # control twin: the same vector without its directory entries
@@ -477,7 +484,7 @@ def build_variant(base: bytes, v: dict, lim):
     P = "zz_c11/"
     # "attr": the forged / added *file* members carry these external attributes (label of FILE_ATTRS); they stay files by name
     _, asys, aattr = ATTR_BY_LABEL[v.get("attr", "default")]
-    akw = {"ext_attr": aattr, "create_system": asys} if v.get("attr") else {}
+    akw = {"ext_attr": aattr, "create_system": asys, "flags": FILE_FLAGS.get(v.get("attr"), 0)} if v.get("attr") else {}
     forged = lambda nm, f, c: F.stored(P + nm, b"x", cd_file_size=f, cd_compress_size=c, **akw)  # noqa: E731
     if name == "pad":
         extra = [F.stored(P + "pad.bin", b"x" * 10, **akw)]
@@ -655,6 +662,10 @@ def eval_lattice(run, case, obs, cells):
                 run.count("decisions_compared_with_nondefault_file_attributes")
                 if ref == {True} and attr_feature(alabel) == "file-entry-carries-directory-attribute":
                     run.count("spec_rejects_although_file_entries_carry_a_directory_attribute")
+                if ref == {True} and alabel in FILE_FLAGS:
+                    run.count("spec_rejects_although_file_entries_carry_general_purpose_flags")
+                    if any((not d) and f > 0 and c == 0 for f, c, d in entries):
+                        run.count("spec_rejects_zero_compressed_entries_with_data_descriptor_flag")
         if real is None:
             run.count("stub_only_vectors")
         elif p1 != p0:
@@ -856,6 +867,7 @@ VARIANTS_QUICK = [
     # the member that pushes the container over a limit is a file (by name) that carries directory / other advisory attributes
     {"name": "single", "d": 1, "attr": "dos-directory-bit"}, {"name": "zero", "front": 1, "attr": "unix-S_IFDIR-mode"},
     {"name": "real-entry-ratio", "attr": "dos-directory+readonly+archive-bits"}, {"name": "pad", "attr": "dos-directory-bit"},
+    {"name": "zero", "attr": "data-descriptor-flag"}, {"name": "eratio", "d": 1, "attr": "data-descriptor+compression-option-flags"},
 ]
 VARIANTS_ATTR = [{"name": nm, "d": 1, "attr": a[0]} for nm in ("single", "total", "eratio", "tratio", "zero") for a in FILE_ATTRS[1:]] + \
                 [{"name": nm, "attr": a[0]} for nm in ("real-entry-ratio", "real-total-ratio", "pad") for a in FILE_ATTRS[1:]]
@@ -951,7 +963,8 @@ def main(run):
     run.require("decisions_compared", run.counters.get("decisions_compared", 0), run.n(20000, 150000))
     for k, lo in (("decisions_on_reused_buffer", run.n(800, 8000)), ("spec_rejects_on_buffer_accepted_before", run.n(150, 1500)),
                   ("spec_rejects_only_by_entry_ratio_excess_below_0.05", run.n(15, 100)), ("spec_rejects_only_by_total_ratio_excess_below_0.05", run.n(15, 100)),
-                  ("decisions_compared_with_nondefault_file_attributes", run.n(8000, 60000)), ("spec_rejects_although_file_entries_carry_a_directory_attribute", run.n(1500, 10000))):
+                  ("decisions_compared_with_nondefault_file_attributes", run.n(8000, 60000)), ("spec_rejects_although_file_entries_carry_a_directory_attribute", run.n(1500, 10000)),
+                  ("spec_rejects_although_file_entries_carry_general_purpose_flags", run.n(1000, 7000)), ("spec_rejects_zero_compressed_entries_with_data_descriptor_flag", run.n(150, 1000))):
         run.require(k, run.counters.get(k, 0), lo)
     for k in ("accept_from_zero", "accept_from_nonzero", "reject_from_zero", "reject_from_nonzero", "error_from_nonzero"):
         run.require("position_checked_on_" + k, run.counters.get("position_checked_on_" + k, 0), 4)
